@@ -43,5 +43,12 @@ void vf_free(void* p) { free(p); }
 uint64_t vf_heap_live(void) { return 0; }
 int vf_valid(const void*, size_t) { return 1; }
 }
+#include <pthread.h>
+static pthread_t g_threads[16]; static unsigned g_nthreads;
+extern "C" {
+uint32_t vf_spawn(void* (*fn)(void*), void* arg) { pthread_create(&g_threads[g_nthreads], 0, fn, arg); return g_nthreads++; }
+uint64_t vf_join(uint32_t t) { void* r = 0; pthread_join(g_threads[t], &r); return (uint64_t)r; }
+void vf_yield(void) {}
+}
 extern "C" int VF_ENTRY(void);
 int main() { init(); VF_ENTRY(); if (g_log) fclose(g_log); if (g_tr) fclose(g_tr); return 0; }
